@@ -62,7 +62,8 @@ def eval_model(ctx):
       'ORDER-O4: from the failure edge of that `?` no child evaluation, handler call or context write is reachable; '
       'LOCK-a: no guard live at a handler call (so unwinding out of a handler drops no guard in the panicking state: no poisoning, nothing left held); '
       'LOCK-c (NO-POISON): no undischarged engine panic site inside any guard-live region; '
-      'UNWIND: no catch_unwind / abort / exit / panic=abort / user Drop impl / extern ABI, so a handler panic reaches the caller as an ordinary unwind.',
+      'UNWIND: no catch_unwind / abort / exit / panic=abort / user Drop impl / extern ABI, so a handler panic reaches the caller as an ordinary unwind. '
+      'UNWIND-PAIR: where an evaluator body writes thread-local / atomic state before a call that can reach a handler and again after it, the unwind edge of that call passes such a write too (Drop guard): no state is left changed by a contained panic.',
       not_decided='the context contents after a fault (follows from C06 WCTX + C07 O4, claimed there)',
       assumptions=COMMON_ASSUME)
 def c15(ctx):
@@ -78,6 +79,7 @@ def c15(ctx):
     obs += r_lock.rule_once(lm)
     obs += r_lock.rule_escape(lm)
     obs += r_misc.rule_unwind(ctx)
+    obs += r_misc.rule_unwind_pair(ctx, lm, em)
     obs += r_lock.rule_floors(lm)
     obs += r_order.rule_floors(em)
     return obs, {'analysed': {'guard_live_call_sites': n, 'handler_sites': sum(len(em.handler_sites(b)) for b in em.bodies),
@@ -197,7 +199,8 @@ def reg_model(ctx):
       'WINSERT: each registry writer applies exactly one HashMap::insert (replace semantics = most recently registered wins) with key = the name parameter and value = the remaining parameters unchanged, in one map value '
       '(precedence, type, associativity and handler of an infix operator are one entry: a lookup can never pair a new handler with an old precedence); register_* hand their parameters through unchanged and in order; only register_* and the fillers call writers. '
       'WDISP: the call-node evaluator consults the context first (Function entries only) and the global registry only on the None edge. RECV + STATICS: every invoked handler is the result of a lookup made in this evaluation; '
-      'the static inventory is exactly {once flag, 4 registries, descriptor store}: no handler cache.',
+      'the static inventory is exactly {once flag, 4 registries, descriptor store}: no handler cache. '
+      'PARSE-NO-EVAL: below parse_expression no arithmetic / sign change is applied to a number (an operator folded into a literal at parse time would never consult the registry).',
       not_decided='that an infix operator registered with an arbitrary precedence groups correctly against every neighbour (binding-power arithmetic over unboundedly many loop iterations: a value property; see DESIGN §4.8 / WGATE)',
       assumptions=COMMON_ASSUME)
 def c08(ctx):
@@ -211,6 +214,7 @@ def c08(ctx):
     obs += r_lock.rule_notry(ctx.lm, classes=('REGISTRY', 'CONTEXT'))
     obs += r_parse.fallback(r_prec.rule_wgate, parse_roles(ctx))
     obs += r_prec.rule_wassoc(ctx.prog)
+    obs += r_num.rule_parse_no_eval(parse_roles(ctx))
     return obs, {'analysed': {'writers': len(rm.writers), 'fillers': len(rm.fillers), 'must_init_bodies': len(rm.must_init)}}
 
 
@@ -282,6 +286,7 @@ def c03(ctx):
     hs = prog.builtin_handlers()
     obs = r_value.rule_tacc(prog)
     obs += r_value.rule_htyped(prog, hs)
+    obs += r_value.rule_hgate(prog, hs)
     hscope = [prog.by_id[i] for i in sorted(prog.reach([h.id for h in hs]))]
     obs += r_nowrap.rule_nowrap([b for b in hscope if not b.derived])
     obs.append(floor('HTYPED', 'builtin-handlers', len(hs), 20, 'documented built-in operators and functions'))
@@ -326,6 +331,7 @@ def parse_roles(ctx):
       'CLOSER: a List / Map / Function node, and the inner expression of parentheses, is returned only on a path dominated by a check of the matching closing delimiter (expect("]")? / predicate-true edge). '
       'SEP: every feasible path from one list / map / call element to the next consumes "," (feasibility = token-fact pruning: a pure predicate on the current token keeps its value until the tokenizer may advance); the part after ":" of a map entry / conditional is parsed only after expect(":")?. '
       'WPREFIX: a Unary node with a non-constant operator is built only on the "registered prefix operator" edge. STRTERM: a String token is built only behind the true edge of a char == char comparison (through a constant flag if need be). STRAY: comma, semicolon, end of input and closing / unknown delimiters in primary position reach only failure returns. '
+      'CHARUNITS: a count-based step (nth / skip / advance_by / take) of a character iterator is never given a byte quantity (str::len, str::find, len_utf8, a CharIndices position), so no character after a multi-byte literal is skipped unseen. '
       'ERRD over Reach(parse_expression): every crate Result and every from_str / parse / checked_* result is ?-propagated, returned, or matched with a failing arm (unterminated string, malformed number => Err).',
       not_decided='language inclusion L(parser) within L(grammar) in general (a property of all token sequences); only the named necessary conditions are decided',
       assumptions=COMMON_ASSUME)
@@ -340,6 +346,7 @@ def c05(ctx):
     obs += r_parse.fallback(r_parse.rule_wprefix, roles, ctx.lm)
     obs += r_parse.fallback(r_parse.rule_stray, roles)
     obs += r_parse.fallback(r_parse.rule_strterm, roles)
+    obs += r_token.rule_charunits(roles)
     bodies = [ctx.prog.by_id[i] for i in sorted(roles.reach)]
     obs += r_errd.rule_errd(bodies, extra_callee_pred=fallible_conv)
     return obs, {'analysed': {'parse_reach': len(bodies), 'parse_bodies': len(roles.parse_bodies)}}
